@@ -64,6 +64,13 @@ lemma("ord.key.order", {"y1": "int", "n1": "int", "y2": "int", "n2": "int"},
       assumes=["valid_ord(y1, n1)", "valid_ord(y2, n2)"],
       note="lexicographic order of valid ordinal dates is the order of day numbers")
 
+lemma("week.key.order", {"y1": "int", "w1": "int", "d1": "int",
+                         "y2": "int", "w2": "int", "d2": "int"},
+      "(((y1, w1, d1) == (y2, w2, d2)) == (week_abs(y1, w1, d1) == week_abs(y2, w2, d2)))"
+      " and (((y1, w1, d1) < (y2, w2, d2)) == (week_abs(y1, w1, d1) < week_abs(y2, w2, d2)))",
+      assumes=["valid_week(y1, w1, d1)", "valid_week(y2, w2, d2)"],
+      note="lexicographic order of valid ISO week dates is the order of day numbers")
+
 lemma("day.split.unique", {"a1": "int", "r1": "real", "a2": "int", "r2": "real"},
       "a1 == a2 and r1 == r2",
       assumes=["0 <= r1 and r1 < 86400", "0 <= r2 and r2 < 86400",
